@@ -9,5 +9,6 @@ def registry : List Suite := [
   Suites.PD.suite,
   Suites.PW.suitePW,
   Suites.PW.suiteBP,
+  Suites.PW.suiteVF,
 ]
 end Driver
